@@ -164,7 +164,7 @@ PLANS["C04"] = plan_queue_lin(
     "each evaluation = one generated program (2-4 threads x <=6 push/try_pop/pop, sequential prefix, final drain) run under one "
     "seeded schedule of the controlled runtime and judged by a WGL linearizability search against a sequential FIFO; "
     "distinct_nontrivial counts distinct (program, call/return order, results) hashes in which at least two operations of different "
-    "threads overlap", ["empty_under_overlap"], execs_quick=2500, execs_thorough=30000)
+    "threads overlap", ["empty_under_overlap"], execs_quick=6000, execs_thorough=40000)
 PLANS["C05"] = plan_queue_lin(
     "C05", r"^(vyu|nib)_", [], [], True,
     "as C04 but against a bounded FIFO of the configured capacity (failed strong try_push legal only when full; for "
@@ -636,7 +636,7 @@ def native_jobs(prop, tier, seed, list_configs):
                     continue
                 env = {"ASAN_OPTIONS": "detect_leaks=0:abort_on_error=0", "UBSAN_OPTIONS": "print_stacktrace=1",
                        "TSAN_OPTIONS": "halt_on_error=1:report_signal_unsafe=0:second_deadlock_stack=1"}
-                jobs.append(dict(target=n, variant=v, timeout=1800, env=env,
+                jobs.append(dict(target=n, variant=v, timeout=(240 if tier == "quick" else 1500), env=env,
                                  args=["--cfg", ",".join(cfgs), "--mode", "sc", "--seed", str(seed + 1000), "--execs", str(execs)]))
     return jobs
 
